@@ -199,14 +199,16 @@ var props = map[string]Prop{
 	},
 	"C08": {
 		ID: "C08", Level: "exploration",
-		Rule: "rapid builds go/types types from a recursive grammar (every scalar width, complex, string, unsafe.Pointer, pointers, slices, maps, chans, funcs, empty and non-empty interfaces, arrays of length 0/1/2/3/5, structs of 0-6 fields with blank fields, named types; depth <= 4) and evaluates each on six targets (linux/amd64, arm64, riscv64, 386, arm, wasip1/wasm; Program and types.Sizes set up exactly as internal/build.Do does): (a) Program.TypeSizes Sizeof/Alignof/Offsetsof (what folds unsafe.Sizeof etc.), (b) the LLVM data layout of Program.Type(T) (size, ABI alignment, element offsets = what generated code and descriptor field offsets use), (c) abi.Builder.Size/Align (descriptor). All must coincide. Non-trivial: type containing a struct, func, zero-length array or complex; distinct by (type, target).",
+		Rule: "rapid builds go/types types from a recursive grammar (every scalar width, complex, string, unsafe.Pointer, pointers, slices, maps, chans, funcs, empty and non-empty interfaces, arrays of length 0/1/2/3/5, structs of 0-6 fields with blank fields, named types; depth <= 4) and evaluates each on six targets (linux/amd64, arm64, riscv64, 386, arm, wasip1/wasm; Program and types.Sizes set up exactly as internal/build.Do does): (a) Program.TypeSizes Sizeof/Alignof/Offsetsof (what folds unsafe.Sizeof etc.), (b) the LLVM data layout of Program.Type(T) (size, ABI alignment, element offsets = what generated code and descriptor field offsets use), (c) abi.Builder.Size/Align (descriptor). All must coincide. Non-trivial: type containing a struct, func, zero-length array or complex; distinct by (type, target). Third job (clayout): batches of 1-10 C-compatible struct shapes (1-7 fields of int8..uint64, float32/64, bool, uintptr, unsafe.Pointer, *int32, arrays of 1-5 elements incl. nested arrays, nested structs to depth 3; named and unnamed) are emitted as go/types types and as C declarations; clang prints sizeof, _Alignof and offsetof of every field for each of the six targets and all three llgo computations must equal them. Non-trivial there = a struct with an array or nested struct field.",
 		Assumptions: []string{
 			"32-bit and non-x86 targets are evaluated in-process only (their code cannot be executed here)",
-			"the comparison with the host C compiler's layout and the compiled reflect/unsafe agreement are part of the generated-program job when built",
+			"C agreement: clang 14 (the host C compiler; other targets through -target with clang's built-in target description, no sysroot needed because only sizeof/_Alignof/__builtin_offsetof constants are emitted) defines the C layout; Go bool = _Bool, uintptr = unsigned long, unsafe.Pointer/*T = pointer; shapes on which llgo's three computations already disagree (listed findings) are counted under excluded_known, not compared",
 		},
 		Jobs: []Job{
 			inj("layout", "ssa", "zz_verif_c08_test.go", "llvm14", "TestVerifC08Layout", 4000, 150000, 4, 16),
 			inj("mapdesc", "ssa", "zz_verif_c08_test.go", "llvm14", "TestVerifC08MapDescriptor", 1500, 40000, 2, 8),
+			{Name: "clayout", Kind: "inject", Pkg: "ssa", Files: []string{"zz_verif_c08_test.go", "zz_verif_c08c_test.go"}, Tags: "llvm14", Run: "TestVerifC08CLayout",
+				Checks: [2]int{80, 2500}, Shards: [2]int{4, 16}, Timeout: [2]time.Duration{15 * min, 60 * min}},
 		},
 	},
 	"C01": {
